@@ -101,7 +101,7 @@ def work(job):
         if status != "ok":
             res["diffs"].append({"kind": "binary-" + status, "opt": oname, "detail": err[-400:], "tail": clines[-3:]})
             continue
-        cs, ms = split_segments(clines), split_segments(mlines)
+        cs, ms = rtdiff.segments(clines), rtdiff.segments(mlines)
         res["steps"] += len(cs)
         if len(cs) != len(ms):
             res["diffs"].append({"kind": "segments", "opt": oname, "detail": f"{len(cs)} vs {len(ms)}"})
